@@ -173,9 +173,15 @@ def build_all(variants):
 # ----------------------------------------------------------------------------------------------
 # running batches
 # ----------------------------------------------------------------------------------------------
+COMPACT = False  # set by run_property: per-run records are not kept, only counts and distinct-measure hashes
+
+
 class Batch:
     def __init__(self):
-        self.runs = {}        # run -> (hash, ok, nt, ops, extra dict)
+        self.runs = {}        # run -> (hash, ok, nt, ops, extra dict); left empty in COMPACT mode
+        self.n = 0            # number of runs
+        self.distinct = set() # COMPACT mode: hash of (ops, schedule signature) of every non-trivial run
+        self.schs = set()     # COMPACT mode: schedule signatures
         self.stats = {}
         self.samples = []
         self.notes = []
@@ -185,6 +191,9 @@ class Batch:
 
     def merge(self, o):
         self.runs.update(o.runs)
+        self.n += o.n
+        self.distinct |= o.distinct
+        self.schs |= o.schs
         for k, v in o.stats.items():
             self.stats[k] = self.stats.get(k, 0) + v
         self.samples += o.samples
@@ -259,7 +268,16 @@ def run_worker(binary, args, seed, first, stride, seconds, outdir, tag, count=No
                     tk = line.split()
                     run = int(tk[1])
                     kv = parse_kv(tk[4:])
-                    b.runs[run] = (tk[2], tk[3] == "ok", kv.get("nt") == "1", kv.get("ops", ""), kv)
+                    b.n += 1
+                    if COMPACT:
+                        # a thorough batch is 1e7-1e8 runs: keeping a tuple and a dict per run took 65 GB and got the
+                        # check killed on an idle machine; only what the evidence needs is kept
+                        sch = kv.get("sch", "")
+                        if kv.get("nt") == "1":
+                            b.distinct.add(hash((kv.get("ops", ""), sch)))
+                        b.schs.add(sch)
+                    else:
+                        b.runs[run] = (tk[2], tk[3] == "ok", kv.get("nt") == "1", kv.get("ops", ""), kv)
                     nruns += 1
                     if tk[3] == "VIOL":
                         b.viol.append(dict(run=run, hash=tk[2], cls=kv.get("class", "?"), sig=kv.get("sig", ""),
@@ -660,6 +678,8 @@ def run_property(prop, tier):
     t0 = time.time()
     if prop == "C18":
         return run_c18(tier, seed)
+    global COMPACT
+    COMPACT = True
     cfgs = configs_for(prop, tier)
     builds = build_all(sorted(set(c[0] for c in cfgs)))
     outdir = os.path.join(BUILD, "out", prop)
@@ -671,11 +691,9 @@ def run_property(prop, tier):
     for variant, eng, args, secs, tag in cfgs:
         # one directory per configuration: replay files are named by (seed, run) only
         b = run_batch(os.path.join(builds[variant], eng), args, seed, secs, os.path.join(outdir, tag), tag)
-        per_cfg[tag] = dict(variant=variant, engine=eng, args=" ".join(args), runs=len(b.runs), wall_s=round(b.wall, 1),
-                            runs_per_hour=int(len(b.runs) / max(b.wall, 0.01) * 3600), violations=len(b.viol), crashes=len(b.crashes))
-        log(f"[run] {tag}: {len(b.runs)} runs in {b.wall:.1f}s, {len(b.viol)} detections, {len(b.crashes)} crashes")
-        # keep run keys distinct per config
-        b.runs = {(tag, k): v for k, v in b.runs.items()}
+        per_cfg[tag] = dict(variant=variant, engine=eng, args=" ".join(args), runs=b.n, wall_s=round(b.wall, 1),
+                            runs_per_hour=int(b.n / max(b.wall, 0.01) * 3600), violations=len(b.viol), crashes=len(b.crashes))
+        log(f"[run] {tag}: {b.n} runs in {b.wall:.1f}s, {len(b.viol)} detections, {len(b.crashes)} crashes")
         total.merge(b)
     rc, reported, known_hits = handle_violations(prop, total.viol, total.crashes, builds, known, outdir)
     for k in known:
@@ -685,26 +703,23 @@ def run_property(prop, tier):
         log(f"KNOWN-FINDING: property={prop} {k['desc']} [observed {len(hits)}x in this run]")
     for n in total.notes[:10]:
         log("NOTE " + n)
-    distinct = set()
-    for (tag, run), (h, ok, nt, ops, kv) in total.runs.items():
-        if nt:
-            distinct.add((ops, kv.get("sch", "")))
-    cov = dict(evaluations=len(total.runs), distinct_nontrivial=len(distinct), rule=RULE[prop],
+    distinct = total.distinct
+    cov = dict(evaluations=total.n, distinct_nontrivial=len(distinct), rule=RULE[prop],
                samples=total.samples[:6] or ["(no sample emitted)"], per_configuration=per_cfg,
                counters={k: v for k, v in sorted(total.stats.items())},
                known_findings_observed={d: len(v) for d, v in known_hits.items()},
                reported_violations=reported,
                real_code="everything under /repo/src and /repo/include compiled from the working tree with -DADA_URL_ADA_VERIF "
                          "(std::regex provider included); stubs: none; harness-owned: hook functions, scheduler",
-               runs_per_hour=int(len(total.runs) / max(time.time() - t0, 0.01) * 3600))
+               runs_per_hour=int(total.n / max(time.time() - t0, 0.01) * 3600))
     if prop == "C13":
         cov["simulated_steps"] = total.stats.get("sim_steps", 0)
         cov["simulated_spin_iterations"] = total.stats.get("sim_spin_iterations", 0)
-        cov["distinct_schedule_signatures"] = len(set(kv.get("sch", "") for (_, _), (h, ok, nt, ops, kv) in total.runs.items()))
+        cov["distinct_schedule_signatures"] = len(total.schs)
         cov["fault_kinds_fired"] = {k: v for k, v in total.stats.items() if k.startswith("fault.")}
     assumptions = ASSUME.get(prop, [])
     write_evidence(prop, tier, seed, cov, assumptions, time.time() - t0, len(reported))
-    log(f"[done] {prop} {tier}: {len(total.runs)} runs, {len(distinct)} distinct non-trivial, rc={rc}, {time.time() - t0:.1f}s")
+    log(f"[done] {prop} {tier}: {total.n} runs, {len(distinct)} distinct non-trivial, rc={rc}, {time.time() - t0:.1f}s")
     return rc
 
 
